@@ -256,6 +256,9 @@ func (d *FormatDecoder) Next() (interface{}, error) {
 			return nil, InvalidFormat{"payload size too small"}
 		}
 		size := hdr.Size - 16
+		if size > math.MaxInt64 {
+			return nil, InvalidFormat{"payload size too large"}
+		}
 		r := io.LimitReader(d.r, int64(size))
 		// Record the reader to be read fully on the next iteration if the caller
 		// didn't do it
